@@ -266,7 +266,8 @@ def call_strategy():
                                          and k in ("F", "S"))},
                        "comment": t[2], "as_point": t[3], "mode": t[4]})
 
-    scalar = st.one_of(
+    from vf.hist import equally as _eq
+    scalar = _eq(
         pos.map(lambda v: {"op": "set_feed_rate", "v": v}),
         pos.map(lambda v: {"op": "set_tool_power", "v": v}),
         st.tuples(st.sampled_from(["cw", "ccw", "clockwise"]), pos).map(
@@ -306,7 +307,7 @@ def call_strategy():
             {"op": "emergency_halt", "text": "stop now", "reset": True},
             {"op": "emergency_halt", "text": "stop", "reset": False},
         ]))
-    reconf = st.one_of(
+    reconf = _eq(
         st.integers(0, 12).map(lambda n: {"op": "reconfig", "dp": n}),
         # an axis renamed in the middle of a program (rename_axis or the
         # formatter's own setter), and a NEW formatter object installed with
@@ -320,8 +321,9 @@ def call_strategy():
                          {"x_axis": "A", "z_axis": "C", "comment_symbols": "("},
                          {"decimal_places": 12, "line_endings": "\\r\\n", "comment_symbols": "#"}]).map(
             lambda c: {"op": "other_builder", "cfg": c}))
-    return st.one_of(*[motion(op) for op in MOTION], scalar, scalar, plain, reconf,
-                     st.just({"op": "repeat"}), st.just({"op": "repeat"}))
+    from vf.hist import weighted, equally
+    return weighted((8, equally(*[motion(op) for op in MOTION])), (5, scalar), (2, plain),
+                    (2, reconf), (1, st.just({"op": "repeat"})))
 
 
 def case_strategy():
